@@ -91,5 +91,64 @@ func SelfTest() error {
 			return fmt.Errorf("planted violation: reported path %s is not the lexicographically smallest", got)
 		}
 	}
+	return selfTestHistory()
+}
+
+// Toy system 2: a counter system whose world keeps a memo in process memory, filled the first
+// time a state with c[1]==1 is checked and never invalidated. The planted violation (the memo
+// disagrees with c[0]==2 in a state with c[1]==0) is not a function of the path: no path to
+// such a state fills the memo. The explorer must report it with a history that reproduces it.
+type toyMemoWorld struct{ memo *int }
+type toyMemoState struct {
+	w *toyMemoWorld
+	c toyVec
+}
+type toyMemo struct{}
+
+func (toyMemo) Root() toyMemoState { return toyMemoState{&toyMemoWorld{}, make(toyVec, 2)} }
+func (toyMemo) Digest(s toyMemoState) [32]byte {
+	return sha256.Sum256([]byte{byte(s.c[0]), byte(s.c[1])})
+}
+func (toyMemo) Letters(s toyMemoState) []Letter {
+	return []Letter{{Name: "inc(0)", Data: 0}, {Name: "inc(1)", Data: 1}}
+}
+func (toyMemo) Step(s toyMemoState, l Letter) (toyMemoState, string, *Violation) {
+	c := append(toyVec{}, s.c...)
+	c[l.Data.(int)]++
+	return toyMemoState{s.w, c}, "ok", nil
+}
+func (toyMemo) Check(s toyMemoState) *Violation {
+	if s.c[1] == 1 && s.w.memo == nil {
+		v := s.c[0]
+		s.w.memo = &v
+	}
+	if s.c[1] == 0 && s.c[0] == 2 && s.w.memo != nil && *s.w.memo != 2 {
+		return &Violation{Clause: "stale-memo", Msg: "planted"}
+	}
+	return nil
+}
+
+func selfTestHistory() error {
+	rep, err := Explore[toyMemoState](toyMemo{}, Options{MaxDepth: 3, Workers: 1})
+	if err != nil {
+		return err
+	}
+	if len(rep.Violations) == 0 || len(rep.Violations[0].History) == 0 {
+		return fmt.Errorf("process-memory violation not found or found without a history: %v", rep.Violations)
+	}
+	v := rep.Violations[0]
+	if _, pv, _ := Replay[toyMemoState](toyMemo{}, v.Path); pv != nil {
+		return fmt.Errorf("process-memory self-test is vacuous: the path alone reproduces")
+	}
+	for i := 0; i < 2; i++ {
+		_, hv, err := Replay[toyMemoState](toyMemo{}, append([]string{HistoryMarker}, v.History...))
+		if err != nil || hv == nil || hv.Clause != v.Clause {
+			return fmt.Errorf("history replay #%d does not reproduce the process-memory violation (err=%v got=%v)", i+1, err, hv)
+		}
+	}
+	// and a history that ends one call early shows nothing
+	if _, hv, err := Replay[toyMemoState](toyMemo{}, append([]string{HistoryMarker}, v.History[:len(v.History)-1]...)); err != nil || hv != nil {
+		return fmt.Errorf("truncated history: err=%v got=%v", err, hv)
+	}
 	return nil
 }
